@@ -83,7 +83,7 @@ def close(a, b, tol):
     return abs(a - b) <= tol * max(abs(b), abs(a)) + 1e-300 or abs(a - b) <= 1e-13
 
 
-CONTAINERS_Q = ('arr:u1', 'arr:u2', 'arr:i8', 'arr:f4', 'arr:f8', 'fcs:8', 'fcs:16', 'fcs:F', 'fcs:D', 'rfi:lin')
+CONTAINERS_Q = ('arr:u1', 'arr:u2', 'arr:i8', 'arr:f4', 'arr:f8', 'fcs:8', 'fcs:16', 'fcs:F', 'fcs:D', 'rfi:lin', 'sub:slice', 'sub:list', 'sub:revslice')
 CONTAINERS_T = CONTAINERS_Q + ('fcs:32', 'fcs:64', 'rfi:log', 'fcs:24')
 
 
@@ -158,6 +158,32 @@ def make_container(kind, M, alpha):
             f.write(buf)
         d = FlowCal.io.FCSData(path)
         return d, sub == 'F', M
+    if k == 'sub':
+        # a sub-sample of a wider parent that has already been queried by name (history: parent by name -> slice -> child by name)
+        if isfrac:
+            return None
+        if sub == 'revslice':
+            names = ['CH%d' % (D - j) for j in range(D)] + ['X0']        # parent columns reversed; child = parent[:, -2::-1]
+            ev = [list(reversed(row)) + [9] for row in M]
+        else:
+            names = ['X0'] + ['CH%d' % (j + 1) for j in range(D)]
+            ev = [[9] + list(row) for row in M]
+        lay = dict(datatype='I', bits=[16] * (D + 1), ranges=[1024] * (D + 1), events=ev, byteord='4,3,2,1', names=names)
+        path = os.path.join(scratch(), 'c12s.fcs')
+        buf, _ = fcsgen.build(lay)
+        with open(path, 'wb') as f:
+            f.write(buf)
+        parent = FlowCal.io.FCSData(path)
+        FlowCal.stats.mean(parent, 'CH%d' % D)
+        parent.range('X0')
+        parent[:, 'CH1']
+        if sub == 'slice':
+            d = parent[:, 1:]
+        elif sub == 'list':
+            d = parent[:, ['CH%d' % (j + 1) for j in range(D)]]
+        else:
+            d = parent[:, -2::-1]
+        return d, False, M
     if k == 'rfi':
         if isfrac:
             return None
